@@ -33,8 +33,8 @@ PROPS["C02"] = dict(
     level="proof",
     technique="Lean 4 theorems (exact pixel test; routing = hot pixels met, in travel order, by level induction) on a hand-written model + exhaustive/differential correspondence with pointindex",
     module="Texel.Properties.C02",
-    translators=[],
-    theorems=["Texel.C02.C02_pixel_test", "Texel.C02.C02_hot_closed", "Texel.C02.C02_routing", "Texel.C02.C02_routing_index",
+    translators=["arith"],
+    theorems=["Texel.GenArith.gen_containsPoint", "Texel.GenArith.gen_up", "Texel.GenArith.gen_extent", "Texel.C02.C02_pixel_test", "Texel.C02.C02_hot_closed", "Texel.C02.C02_routing", "Texel.C02.C02_routing_index",
               "Texel.C02.C02_nodup", "Texel.C02.C02_routed_nonempty", "Texel.C02.C02_second_sentence_ring", "Texel.C02.C02_second_sentence_polygon"],
     streams=["li", "li-large", "route", "route-random", "snap", "model-functional-vs-reference"],
     trusted=["Model.Geom/Model.Route are hand-written mirrors of containsPoint, lineIntersects, findIntersectingQuadrants, snapClosestPoints, InsertPoint, insertCoord; "
@@ -64,12 +64,13 @@ def snapprop(pid, level, module, theorems, streams, technique, level_text, level
 FUNC = "model-functional-vs-reference"
 
 snapprop("C09", "proof", "Texel.Properties.C09",
-    ["Texel.C09.C09_accept_iff", "Texel.C09.C09_outside_rejected", "Texel.C09.C09_snapped_only_inside", "Texel.C09.F2_witness"],
+    ["Texel.C09.C09_accept_iff", "Texel.C09.C09_outside_rejected", "Texel.C09.C09_snapped_only_inside", "Texel.C09.F2_witness", "Texel.GenArith.gen_deepestAddr"],
     ["snap-outside", "snap-outside-extent", "addr"],
     "Lean 4 theorems (a vertex gets an address iff inside the half-open extent; any outside vertex makes SnapPolygon fail / return empty) + differential correspondence at 1-unit distances",
     "Theorems for every grid (any origin, resolution, depth), every polygon and every distance: deepestAddr accepts exactly the half-open extent (floor division), and one outside vertex decides the whole call "
     "(error by default, empty result with ignore-outside-grid). Tied to the code by the addr stream (public InsertPoint against the model, vertices 1 unit / res-1 / res / res+1 outside each side and corner) and the snap-outside stream.",
-    "Trusted: Lean kernel; hand-written model tied by differential testing; quantisation below 1e-10 (FromGeomOrd truncates toward zero) is outside the model: the property is stated on the quantised integers.")
+    "Trusted: Lean kernel; hand-written model tied by differential testing; quantisation below 1e-10 (FromGeomOrd truncates toward zero) is outside the model: the property is stated on the quantised integers. The address arithmetic and the rejection test of the model are proved equal to the expressions trgen arith regenerates from InsertPoint/InsertCoord on every run (gen_deepestAddr).",
+    translators=["arith"])
 
 snapprop("C08", "proof", "Texel.Properties.C08",
     ["Texel.C08.processLevels_keys", "Texel.C08.C08_keys", "Texel.C08.processLevels_entry", "Texel.C08.C08_alone_eq_together", "Texel.C08.C08_depth_independent", "Texel.C08.C08_independent"],
@@ -99,12 +100,13 @@ snapprop("C07", "proof", "Texel.Properties.C07",
     "Trusted: Lean kernel; the model is a function by construction, so determinism of the code itself rests on the correspondence and the repetition runs; the model's exact integer area2 stands for the float orientation test of go-spatial (float seam, compared on every case).")
 
 snapprop("C03", "proof", "Texel.Properties.C03",
-    ["Texel.C03.C03_output_is_pixel_of_level", "Texel.C03.C03_index_in_range", "Texel.C03.C03_centre_in_pixel", "Texel.C03.C03_centre_exact", "Texel.C03.C03_centre_deepest", "Texel.C03.C03_round", "Texel.C03.C03_deviation", "Texel.C03.C03_pixel_size", "Texel.C03.C03_pixel_is_sixteenth_of_cell"],
+    ["Texel.C03.C03_output_is_pixel_of_level", "Texel.C03.C03_index_in_range", "Texel.C03.C03_centre_in_pixel", "Texel.C03.C03_centre_exact", "Texel.C03.C03_centre_deepest", "Texel.C03.C03_round", "Texel.C03.C03_deviation", "Texel.C03.C03_pixel_size", "Texel.C03.C03_pixel_is_sixteenth_of_cell", "Texel.GenArith.gen_span", "Texel.GenArith.gen_centroid", "Texel.GenArith.gen_level"],
     ["snap", "quad"],
     "Lean 4 theorems on the integer centre formula (in its pixel, exact middle, equals the ideal centre on round extents, within the reported deviation otherwise) + bit-exact centre canonicalisation of every returned float",
     "Theorems: every vertex of everything snapPolygonF returns for level l stands for a pixel of that level (indices below 2^l); for every grid/level/pixel the coordinate handed out is inside its pixel, exactly its middle above the deepest level, equal to minX+(k+1/2)*XSpan/2^l when the extent divides evenly, and otherwise left of the ideal centre by less than XSpan mod 2^depth "
     "(the deviation the tool reports). The harness checks on every accepted built-in set x ids that each returned float is bit-for-bit ToGeomOrd of such an integer, that level = id+log2(tileWidth)+4 and pixel = cellSize/16, and the distance to the ideal centre against DeviationStats.",
-    "Trusted: Lean kernel; float conversion (ToGeomOrd) and tms20's float extent are outside the model; the cellSize constants in the JSON documents are rounded (checked to 1e-6 relative).")
+    "Trusted: Lean kernel; float conversion (ToGeomOrd) and tms20's float extent are outside the model; the cellSize constants in the JSON documents are rounded (checked to 1e-6 relative).",
+    translators=["arith"])
 
 snapprop("C06", "other", "Texel.Properties.C06",
     ["Texel.C06.C06_no_points_found_unreachable", "Texel.C06.C06_keys_encodable", "Texel.C06.C06_index_total", "Texel.C06.C06_ring_cleanup_total_partial", "Texel.C06.C06_total_up_to_kmp_partial"],
@@ -188,9 +190,9 @@ PROPS["C13"] = dict(level="proof", module="Texel.Properties.C13", translators=["
                "pre-existing targets with overwrite) and every target table is compared with what snap.SnapPolygon returns in-process.",
     level_note="Trusted: Lean kernel, the two extractors; the binary's behaviour end to end is validated by differential runs, not proved.")
 
-PROPS["C14"] = dict(level="proof", module="Texel.Properties.C14", translators=["flags"],
+PROPS["C14"] = dict(level="proof", module="Texel.Properties.C14", translators=["flags", "arith"],
     technique="Lean 4 theorem (IsQuadTree accepts iff the set is a true quadtree, by induction over the matrices) on a hand-written model + exhaustive perturbation correspondence + call order extracted from main.go",
-    theorems=["Texel.C14.localErr_none_iff", "Texel.C14.pairErr_none_iff", "Texel.C14.C14_iff", "Texel.C14.C14_validate_order", "Texel.C14.C14_doubling", "Texel.C14.firstErr_none_iff", "Texel.C14.C14_pixel_count"],
+    theorems=["Texel.C14.localErr_none_iff", "Texel.C14.pairErr_none_iff", "Texel.C14.C14_iff", "Texel.C14.C14_validate_order", "Texel.C14.C14_doubling", "Texel.C14.firstErr_none_iff", "Texel.C14.C14_pixel_count", "Texel.GenArith.gen_level", "Texel.C14.C14_level_used"],
     streams=["isquad"], design_ref="DESIGN.md §6 C14",
     trusted=["Model.QuadTree is a hand-written mirror of pointindex.IsQuadTree, tied by the isquad correspondence: every accepted built-in set x every tile matrix x every single-field perturbation (enumerated completely), verdict and failing check compared",
              "cell sizes are exact rationals in the model; the code's single float division can differ from the exact ratio only within an ulp of the tolerance borders 1.99/2.01 (those two perturbations are run for 'no panic' only)",
